@@ -67,7 +67,8 @@ def _audit_hook(event, args):
     rec._in_audit = True
     try:
         paths = []
-        for a in args[:2]:
+        npath = 2 if event in ("os.rename", "os.link", "os.symlink", "shutil.copyfile", "shutil.move") else 1
+        for a in args[:npath]:
             if isinstance(a, int) and not isinstance(a, bool) and event == "open":
                 p = rec.fd_paths.get(a)
                 if p:
